@@ -73,6 +73,33 @@ type Grammar struct {
 	Rules []*Rule
 }
 
+// Effective returns the grammar the generated parser works with when a rule name is defined more
+// than once (pigeon has no duplicate check): the rules table is keyed by name and filled in grammar
+// order, so the LAST definition of a name is the rule; the start rule is the rule with the name
+// of the first definition. Without duplicates g itself is returned.
+func (g *Grammar) Effective() *Grammar {
+	last := map[string]int{}
+	dup := false
+	for i, r := range g.Rules {
+		if _, ok := last[r.Name]; ok {
+			dup = true
+		}
+		last[r.Name] = i
+	}
+	if !dup {
+		return g
+	}
+	out := &Grammar{}
+	seen := map[string]bool{}
+	for _, r := range g.Rules {
+		if !seen[r.Name] {
+			seen[r.Name] = true
+			out.Rules = append(out.Rules, g.Rules[last[r.Name]])
+		}
+	}
+	return out
+}
+
 func (g *Grammar) Rule(name string) *Rule {
 	for _, r := range g.Rules {
 		if r.Name == name {
